@@ -29,8 +29,8 @@ EXECUTION_COUNTERS = ["nan_fault_runs", "max_functions_runs", "user_exception_ru
 RULE = ("case = (base configuration, fault kind); inside: all fault positions of that kind; a faulted run is non-trivial if the fault was actually reached; distinct key = (case, fault); "
         "monitor_counters: runs per fault kind, expected TOO_FEW runs, budget checks")
 ASSUMPTIONS = ["evaluators are deterministic, so a run with max_functions follows the unlimited run up to the stop", "realization weights are positive in this check (zero weights are C01/C06 territory)"]
-REQUIRED = {"quick": {"nan_fault_runs": 1339, "expected_too_few_runs": 700, "expected_ok_runs": 400, "max_functions_runs": 450, "user_exception_runs": 400, "evaluator_step_runs": 78, "filter_induced_too_few": 30, "estimator_induced_too_few": 40, "delivery_checked": 700, "max_functions_runs_with_all_failed_evaluations": 4, "__nontrivial__": 2218},
-            "thorough": {"nan_fault_runs": 15000, "expected_too_few_runs": 7000, "expected_ok_runs": 4000, "max_functions_runs": 4000, "user_exception_runs": 4000, "evaluator_step_runs": 759, "filter_induced_too_few": 300, "estimator_induced_too_few": 400, "delivery_checked": 7000, "max_functions_runs_with_all_failed_evaluations": 40, "__nontrivial__": 26097}}
+REQUIRED = {"quick": {"nan_fault_runs": 1339, "two_call_fault_runs": 30, "two_call_expected_too_few": 8, "expected_too_few_runs": 700, "expected_ok_runs": 400, "max_functions_runs": 450, "user_exception_runs": 400, "evaluator_step_runs": 78, "filter_induced_too_few": 30, "estimator_induced_too_few": 40, "delivery_checked": 700, "max_functions_runs_with_all_failed_evaluations": 4, "__nontrivial__": 2218},
+            "thorough": {"nan_fault_runs": 15000, "two_call_fault_runs": 270, "two_call_expected_too_few": 70, "expected_too_few_runs": 7000, "expected_ok_runs": 4000, "max_functions_runs": 4000, "user_exception_runs": 4000, "evaluator_step_runs": 759, "filter_induced_too_few": 300, "estimator_induced_too_few": 400, "delivery_checked": 7000, "max_functions_runs_with_all_failed_evaluations": 40, "__nontrivial__": 26097}}
 N = {"quick": 154, "thorough": 1400}
 KMAX = {"quick": 8, "thorough": 14}
 METHODS = ["slsqp", "l-bfgs-b", "evaluator_step", "nelder-mead", "cobyla", "differential_evolution", "evaluator_step"]
@@ -159,6 +159,13 @@ def gate(spec, method, call, prev_function_call):
     worst = ("ok", "")
     for b in range(B):
         failed_f = np.zeros(R, dtype=bool)
+        if not has_f and prev_function_call is not None:
+            # a gradient-only request builds on the function evaluation of the same point: what failed there stays failed
+            pc = prev_function_call
+            pall = pc.objectives if pc.constraints is None else np.hstack([pc.objectives, pc.constraints])
+            prow = np.isnan(pall).any(axis=1)
+            for i in range(len(pc.realizations)):
+                failed_f[int(pc.realizations[i])] |= bool(prow[i])
         if has_f:
             rows = np.flatnonzero(perts < 0)[b * R:(b + 1) * R] if not has_g else np.flatnonzero(perts < 0)
             for i in rows:
@@ -317,6 +324,52 @@ def run_case(case, obs):
                         continue
                     if run.code != finished:
                         obs.violation("unexpected_exit_code", got=int(run.code), want=int(finished), **tag)
+        # faults in two evaluator calls of one point: a realization fails in the function request, the perturbations of another
+        # one fail in the gradient-only request that follows (each tolerated on its own)
+        if spec["R"] >= 2:
+            for k in range(1, min(Ncalls, KMAX[obs.tier])):
+                c = base.ev.calls[k]
+                if c.perturbations is None or np.any(c.perturbations < 0):
+                    continue
+                j = max((q for q in range(k) if base.ev.calls[q].perturbations is None or np.any(base.ev.calls[q].perturbations < 0)), default=None)
+                if j is None or (base.ev.calls[j].perturbations is not None and np.any(base.ev.calls[j].perturbations >= 0)):
+                    continue
+                if len(base.ev.calls[j].realizations) != spec["R"]:
+                    continue
+                a, b = (int(x) for x in rng.choice(spec["R"], size=2, replace=False))
+                s2 = dict(spec)
+                col = int(rng.integers(F))
+                s2["nan"] = [{"call": j, "r": a, "p": -1, "col": col}] + [{"call": k, "r": b, "p": p, "col": col} for p in range(spec["P"])]
+                run = execute(method, s2, tspec)
+                obs.count("two_call_fault_runs")
+                tag = {"method": method, "function_call": j, "gradient_call": k, "failed_in_function_call": a, "perturbations_failed_of": b, "filters": spec.get("filters"),
+                       "estimators": spec.get("estimators"), "rmin": spec["rmin"], "pmin": spec["pmin"], "transforms": tspec}
+                if run.exc is not None:
+                    obs.violation("internal_exception_escaped", exception=repr(run.exc), **tag)
+                    continue
+                if len(run.ev.calls) <= j:
+                    obs.count("fault_not_reached")
+                    continue
+                if gate(s2, method, run.ev.calls[j], None)[0] != "ok":
+                    continue                      # the function request alone decides (covered above)
+                ck = run.ev.calls[k] if len(run.ev.calls) > k else None
+                if ck is None or ck.perturbations is None or np.any(ck.perturbations < 0):
+                    obs.count("fault_not_reached")
+                    continue
+                verdict, reason = gate(s2, method, ck, run.ev.calls[j])
+                obs.nontrivial(case["i"], "nan2", j, k)
+                if verdict == "ambiguous":
+                    obs.count("ambiguous." + reason)
+                elif verdict == "too_few":
+                    obs.count("two_call_expected_too_few")
+                    if run.code != X.TOO_FEW_REALIZATIONS:
+                        obs.violation("exit_code_should_be_too_few", got=int(run.code), reason=reason, **tag)
+                    elif len(run.ev.calls) != k + 1:
+                        obs.violation("evaluations_after_too_few", calls=len(run.ev.calls), **tag)
+                else:
+                    obs.count("two_call_expected_ok")
+                    if run.code == X.TOO_FEW_REALIZATIONS:
+                        obs.violation("exit_code_too_few_but_enough_successes", reason=reason, **tag)
     elif case["kind"] == "maxf":
         if method == "evaluator_step":
             return
